@@ -23,6 +23,7 @@ type SpecEnv struct {
 	pkg      *packages.Package
 	scopePos token.Pos // position for resolving Go locals (loop invariants), 0 = none
 	loopN    int
+	loopEntry *State // state in which the loop was first reached (loopentry())
 	inOld    bool
 	what     string
 }
@@ -610,6 +611,16 @@ func (u *Unit) specCall(st *State, e *SExpr, env *SpecEnv, q *bool) *Val {
 		}
 		f := u.d.fun("pure!"+fname+"!"+idx, sorts, sortOf(rt))
 		return u.fromScalar(st, app(f, terms...), rt)
+	case "loopentry": // loopentry(e): the value of e when the loop was first reached (loop invariants only)
+		if env.loopEntry == nil {
+			u.eng.specError("%s: loopentry() is only available in loop invariants", env.what)
+			return ev(0)
+		}
+		ne := env.child()
+		ne.loopEntry = nil
+		env.loopEntry.noFacts++
+		defer func() { env.loopEntry.noFacts-- }()
+		return u.specExpr(env.loopEntry, args[0], ne, q)
 	case "seen": // inside range-map loop invariants: key already visited
 		k := ev(0)
 		return boolVal(app("select", u.curLoopSeen[env.loopN], u.scalar(st, k)))
@@ -772,7 +783,7 @@ func (u *Unit) specEnvLocal(st *State, scopePos token.Pos, loopN int) *SpecEnv {
 			names["self"] = v
 		}
 	}
-	return &SpecEnv{names: names, oldNames: u.entryParams, old: st.old, pkg: u.pkg, scopePos: scopePos, loopN: loopN, what: fmt.Sprintf("%s loop %d invariant", u.name, loopN)}
+	return &SpecEnv{names: names, oldNames: u.entryParams, old: st.old, pkg: u.pkg, scopePos: scopePos, loopN: loopN, loopEntry: st.loopEntry[loopN], what: fmt.Sprintf("%s loop %d invariant", u.name, loopN)}
 }
 
 // asTypeName: the canonical name of an errors.As target type (the code model uses types.TypeString).
